@@ -47,6 +47,21 @@
 //!                    type entries, qualified names) or chain (every binary operator level, unary minus, path, filter,
 //!                    invocation, nested parentheses / lists / contexts / else-if) at lengths 1 … 1025 (thorough:
 //!                    … 5000) around every power of two, 99-101, 199-201, 1000: the flat tree written out
+//!   line-comment-end a `//` comment ended by each vertical space character (U+000A … U+000D), CR LF, LF CR, CR CR and
+//!                    by the end of the input: 16 fixed shapes per ending with written-out trees (the comment before an
+//!                    operator, a keyword, a closing bracket, after a keyword, between the variable and `in`, between
+//!                    `function` / `list` and the bracket, a vertical space inside a block comment, a comment opener
+//!                    inside a line comment), a line comment with a random body and each ending in a random gap of a
+//!                    share of the plain renderings of the other families (the tree must be the plain one), and the gap
+//!                    skipper alone against `GapLayout.skipGap` (finding F71, repaired by 20fca88)
+//!   between-interval an interval in each of the nine bracket spellings (the reversed ones leave the brackets of the
+//!                    program unbalanced) as the lower bound of `between` — directly, in parentheses, as an argument,
+//!                    a list item, inside a filter — and before / after a between clause: written-out trees
+//!   signed-endpoint  a negative number (five spellings, `-` with and without a blank) as the start, the end or both
+//!                    endpoints of an interval in all nine bracket spellings — alone, after `in`, as a list item, as
+//!                    unary tests, in negated unary tests — and after `<` `<=` `>` `>=` as unary tests, after `in (`, in
+//!                    an in-list: the expected tree (the endpoint is the negation of the number) is written out; the same
+//!                    texts without the sign must parse (finding F72)
 //!   extended         what is still outside `Dmn.Ref.Tree` (typed parameters, external bodies,
 //!                    generic types, unary-tests start symbols) mixed with everything else:
 //!                    print∘parse round trip on the real parser with the harness' own printer
@@ -89,6 +104,9 @@ const SIG_FUNCTION_COMMENT: &str = "layout changes the tree: comment between `fu
 const SIG_TYPE_KEYWORD_COMMENT: &str = "layout changes the tree: comment between list/range/context/function and <";
 const SIG_STALE_TYPE_NAME: &str = "parser rejects a type or conversion function name (date, time, string, number) after instance of a named type";
 const SIG_ITEM_VARIABLE: &str = "parser rejects `item` as the variable of for/some/every";
+const SIG_LINE_COMMENT_END: &str = "layout changes the tree: a line comment ended by a vertical space other than the line feed (U+000B, U+000C, U+000D)";
+const SIG_LINE_COMMENT: &str = "layout changes the tree: a line comment (ended by a line feed or by the end of the input)";
+const SIG_SIGNED_ENDPOINT: &str = "parser rejects a negative number as an interval endpoint or after the comparison sign of a unary test";
 
 // ------------------------------------------------------------------------------------------
 // alphabet
@@ -2211,6 +2229,273 @@ pub fn run(cfg: &Cfg) -> Report {
         LayoutClass::FunctionComment => SIG_FUNCTION_COMMENT,
       };
       rep.disagree(Kind::ImplVsSpec, "layout", sig, &text, &show(&im), &show(base));
+    }
+  }
+
+  // ---------------------------------------------------------------- line comments: every way a line can end
+  // A `//` comment ends at a vertical space (grammar rule 62: U+000A … U+000D), a CR LF pair included, or at the end
+  // of the input. Written-out trees for the fixed shapes; for a share of the token lists of the other families a line
+  // comment with each ending is put into a random gap and the tree must be the one of the plain rendering.
+  {
+    let mut lc_rng = rng.fork();
+    let ends: [(&str, &str); 7] = [("\n", "U+000A"), ("\u{b}", "U+000B"), ("\u{c}", "U+000C"), ("\r", "U+000D"), ("\r\n", "CR LF"), ("\n\r", "LF CR"), ("\r\r", "CR CR")];
+    let (a, b) = (name_ast(0), name_ast(1));
+    let num = |d: &str| AstNode::Numeric(d.to_string(), "".to_string());
+    let bx = |n: &AstNode| Box::new(n.clone());
+    let sig_of = |end: &str| if end.chars().any(|c| c != '\n') { SIG_LINE_COMMENT_END } else { SIG_LINE_COMMENT };
+    for (end, label) in ends {
+      let e = end;
+      let cases: Vec<(String, Result<AstNode, String>)> = vec![
+        (format!("1 // c{e}+ 2"), Ok(AstNode::Add(bx(&num("1")), bx(&num("2"))))),
+        (format!("a // x{e}and b"), Ok(AstNode::And(bx(&a), bx(&b)))),
+        (format!("a and// x{e}b"), Ok(AstNode::And(bx(&a), bx(&b)))),
+        (format!("a and //{e}b"), Ok(AstNode::And(bx(&a), bx(&b)))),
+        (format!("// lead{e}a"), Ok(a.clone())),
+        (format!("[ a , // one{e} b // two{e}]"), Ok(AstNode::List(vec![a.clone(), b.clone()]))),
+        (format!("a // x{e}// y{e}+ b"), Ok(AstNode::Add(bx(&a), bx(&b)))),
+        (format!("a //x /* y{e}*  b"), Ok(AstNode::Mul(bx(&a), bx(&b)))),
+        (format!("a /* x{e}y */ + b"), Ok(AstNode::Add(bx(&a), bx(&b)))),
+        (format!("\"s\" // \"t\"{e}+ \"t\""), Ok(AstNode::Add(Box::new(AstNode::String("s".into())), Box::new(AstNode::String("t".into()))))),
+        (format!("a + b // t{e}"), Ok(AstNode::Add(bx(&a), bx(&b)))),
+        (format!("for k // c{e}in b return k"), run_impl("for k in b return k")),
+        (format!("function // c{e}( a ) a"), run_impl("function ( a ) a")),
+        (format!("a instance of list // c{e}< b >"), run_impl("a instance of list < b >")),
+        (format!("if a // 1{e}then b // 2{e}else c // 3{e}"), run_impl("if a then b else c")),
+        (format!("a between // x{e}b // y{e}and c"), run_impl("a between b and c")),
+      ];
+      for (text, expected) in cases {
+        rep.case(&text, true);
+        rep.hit(&format!("line-comment-end:{}", label));
+        let im = run_impl(&text);
+        if im != expected || expected.is_err() {
+          rep.disagree(Kind::ImplVsSpec, "line-comment-end", sig_of(end), &format!("{:?}", text), &show(&im), &show(&expected));
+        }
+      }
+    }
+    // the end of the input ends a line comment
+    for (text, expected) in [
+      ("a + b // trailing".to_string(), AstNode::Add(bx(&a), bx(&b))),
+      ("a + b //".to_string(), AstNode::Add(bx(&a), bx(&b))),
+      ("a // x\n+ b // y".to_string(), AstNode::Add(bx(&a), bx(&b))),
+      ("a /* x */ // y".to_string(), a.clone()),
+    ] {
+      rep.case(&text, true);
+      rep.hit("line-comment-end:end of input");
+      let im = run_impl(&text);
+      if im.as_ref().ok() != Some(&expected) {
+        rep.disagree(Kind::ImplVsSpec, "line-comment-end", SIG_LINE_COMMENT, &format!("{:?}", text), &show(&im), &short(&format!("{:?}", expected)));
+      }
+    }
+    // generated: one line comment with a random body and each ending in a random gap of a plain rendering
+    let bodies = ["", " x", "x", " 1 + (", " */ /* ", " \" ", " // ", "\t\u{00A0}é", " and or in"];
+    let stride = if thorough { 3 } else { 23 };
+    for (k, (_, toks, base)) in layout_jobs.iter().enumerate() {
+      if k % stride != 0 || toks.len() < 2 || base.is_err() {
+        continue;
+      }
+      let (end, label) = ends[(k / stride) % ends.len()];
+      let gap_at = lc_rng.below(toks.len() as u64 - 1) as usize;
+      let body = *lc_rng.pick(&bodies);
+      let mut text = String::new();
+      for (i, t) in toks.iter().enumerate() {
+        text.push_str(&t.text);
+        if i + 1 == toks.len() {
+          if lc_rng.chance(1, 4) {
+            text.push_str(" //");
+            text.push_str(body);
+            if lc_rng.chance(1, 2) {
+              text.push_str(end);
+            }
+          }
+        } else if i == gap_at {
+          // (after the token `/` a blank: `///` would open the comment one character early)
+          text.push_str(if t.text == "/" || lc_rng.chance(1, 2) { " //" } else { "//" });
+          text.push_str(body);
+          text.push_str(end);
+        } else {
+          text.push(' ');
+        }
+      }
+      // `a . b` before a comment that follows a digit: nothing special; a number directly followed by `//` is fine
+      rep.case(&text, true);
+      rep.hit(&format!("line-comment-end:generated {}", label));
+      let im = run_impl(&text);
+      if &im != base {
+        rep.disagree(Kind::ImplVsSpec, "line-comment-end", sig_of(end), &format!("{:?}", text), &show(&im), &show(base));
+      }
+    }
+    // the lexer alone: the gap skipper against `GapLayout.skipGap` on comments with every ending
+    let mut greqs = vec![];
+    let mut gtexts = vec![];
+    for (end, _) in ends {
+      for body in bodies {
+        for lead in ["", " ", "\r\n", "/* c */"] {
+          for tail in ["", " ", "\n", "// z\u{c}"] {
+            let text = format!("{}//{}{}{}a", lead, body, end, tail);
+            greqs.push(format!("(c06 gap {})", Sexp::str(&text)));
+            gtexts.push((text, end));
+          }
+        }
+      }
+    }
+    let ganswers = model.ask_batch(&greqs);
+    let s0 = scope();
+    for (((text, end), req), ans) in gtexts.iter().zip(greqs.iter()).zip(ganswers.iter()) {
+      let left: Option<usize> = Sexp::parse(ans).and_then(|s| s.as_list().and_then(|l| l.get(1).and_then(|x| x.as_atom().and_then(|a| a.parse().ok()))));
+      let left = match left {
+        Some(n) => n,
+        None => {
+          rep.disagree(Kind::ImplVsModel, "line-comment-end", "driver-error", req, "", ans);
+          continue;
+        }
+      };
+      rep.case(&format!("gap|{}", text), true);
+      rep.hit("line-comment-end:gap");
+      let len = text.chars().count();
+      crate::util::note_case(text);
+      let toks = guarded(|| dmntk_feel_parser::verif::tokenize(&s0, dmntk_feel_parser::VerifTokenType::StartExpression, text, (false, false, false, false), 2));
+      let first_end = match &toks {
+        Ok(ts) if ts.len() == 2 => ts[1].2,
+        _ => usize::MAX,
+      };
+      let model_end = if left == 0 { len } else { len - left + 1 };
+      if first_end != len {
+        rep.disagree(Kind::ImplVsSpec, "line-comment-end", sig_of(end), &format!("{:?}", text), &format!("first token ends at {}", first_end), &format!("the name `a` ending at {}", len));
+      } else if first_end != model_end {
+        rep.disagree(Kind::ImplVsModel, "line-comment-end", "read_input skips differently from GapLayout.skipGap", &format!("{:?}", text), &format!("first token ends at {}", first_end), &format!("first token ends at {}", model_end));
+      }
+    }
+  }
+
+  // ---------------------------------------------------------------- signed endpoints
+  // Grammar rule 37: numeric literal = ["-"], digits …; rule 18-20: an endpoint is a simple value, a simple value is
+  // a simple literal or a qualified name. So an interval endpoint and the operand of `<` `<=` `>` `>=` in a unary test
+  // may be a negative number. The expected tree is written out: the endpoint is the negation of the number, as the
+  // parser represents `-1` everywhere else (a literal `Numeric("-1", "")` is accepted as well).
+  {
+    let num = |d: &str, f: &str| AstNode::Numeric(d.to_string(), f.to_string());
+    let a = name_ast(0);
+    // (text of the number without sign, its tree)
+    let numbers: Vec<(&str, AstNode)> = vec![("1", num("1", "")), ("10", num("10", "")), ("1.5", num("1", "5")), (".5", num("0", "5")), ("0", num("0", ""))];
+    let neg = |n: &AstNode| AstNode::Neg(Box::new(n.clone()));
+    let alt = |n: &AstNode| match n {
+      AstNode::Numeric(d, f) => AstNode::Numeric(format!("-{}", d), f.clone()),
+      other => other.clone(),
+    };
+    // every spelling of the brackets: (open, close, start closed, end closed)
+    let brackets: [(&str, &str, bool, bool); 9] =
+      [("[", "]", true, true), ("(", ")", false, false), ("]", "[", false, false), ("(", "]", false, true), ("[", ")", true, false), ("]", "]", false, true), ("[", "[", true, false), ("]", ")", false, false), ("(", "[", false, false)];
+    let mut cases: Vec<(String, bool, Vec<AstNode>, &'static str)> = vec![];
+    let range = |lo: AstNode, hi: AstNode, sc: bool, ec: bool| AstNode::Range(Box::new(AstNode::IntervalStart(Box::new(lo), sc)), Box::new(AstNode::IntervalEnd(Box::new(hi), ec)));
+    for (ni, (nt, n)) in numbers.iter().enumerate() {
+      let (pt, p) = &numbers[(ni + 1) % numbers.len()];
+      for (bi, (ob, cb, sc, ec)) in brackets.iter().enumerate() {
+        for (sl, sh) in [(true, false), (false, true), (true, true)] {
+          for sp in ["", " "] {
+            if (bi + ni) % 3 != 0 && !(sl && !sh && sp.is_empty()) {
+              continue; // every bracket spelling with a signed start; a third of the rest
+            }
+            let lo_t = if sl { format!("-{}{}", sp, nt) } else { nt.to_string() };
+            let hi_t = if sh { format!("-{}{}", sp, pt) } else { pt.to_string() };
+            let mk = |f: &dyn Fn(&AstNode) -> AstNode| range(if sl { f(n) } else { n.clone() }, if sh { f(p) } else { p.clone() }, *sc, *ec);
+            let trees = vec![mk(&neg), mk(&alt)];
+            let iv = format!("{}{}..{}{}", ob, lo_t, hi_t, cb);
+            cases.push((iv.clone(), false, trees.clone(), "interval"));
+            cases.push((format!("a in {}", iv), false, trees.iter().map(|t| AstNode::In(Box::new(a.clone()), Box::new(t.clone()))).collect(), "interval after in"));
+            if bi == 0 {
+              cases.push((iv.clone(), true, trees.iter().map(|t| AstNode::ExpressionList(vec![t.clone()])).collect(), "interval as unary tests"));
+              cases.push((
+                format!("not({}, a)", iv),
+                true,
+                trees.iter().map(|t| AstNode::NegatedList(vec![t.clone(), a.clone()])).collect(),
+                "interval in negated unary tests",
+              ));
+              cases.push((format!("[{}]", iv), false, trees.iter().map(|t| AstNode::List(vec![t.clone()])).collect(), "interval as list item"));
+            }
+          }
+        }
+      }
+      for (op, mk) in [
+        ("<", (|e| AstNode::UnaryLt(e)) as fn(Box<AstNode>) -> AstNode),
+        ("<=", |e| AstNode::UnaryLe(e)),
+        (">", |e| AstNode::UnaryGt(e)),
+        (">=", |e| AstNode::UnaryGe(e)),
+      ] {
+        for sp in ["", " "] {
+          let t = format!("{} -{}{}", op, sp, nt);
+          let trees = vec![mk(Box::new(neg(n))), mk(Box::new(alt(n)))];
+          cases.push((t.clone(), true, trees.iter().map(|x| AstNode::ExpressionList(vec![x.clone()])).collect(), "comparison as unary tests"));
+          cases.push((format!("{}, a", t), true, trees.iter().map(|x| AstNode::ExpressionList(vec![x.clone(), a.clone()])).collect(), "comparison as unary tests"));
+          cases.push((format!("a in ({})", t), false, trees.iter().map(|x| AstNode::In(Box::new(a.clone()), Box::new(x.clone()))).collect(), "comparison after in"));
+          cases.push((
+            format!("a in ({}, 1)", t),
+            false,
+            trees.iter().map(|x| AstNode::In(Box::new(a.clone()), Box::new(AstNode::ExpressionList(vec![x.clone(), num("1", "")])))).collect(),
+            "comparison in an in-list",
+          ));
+        }
+      }
+    }
+    for (text, ut, trees, position) in &cases {
+      rep.case(&format!("signed-endpoint|{}|{}", ut, text), true);
+      rep.hit(&format!("signed-endpoint:{}", position));
+      let im = if *ut { run_impl_ut(text) } else { run_impl(text) };
+      if !trees.iter().any(|t| im.as_ref().ok() == Some(t)) {
+        rep.disagree(
+          Kind::ImplVsSpec,
+          "signed-endpoint",
+          SIG_SIGNED_ENDPOINT,
+          &format!("{}{}", if *ut { "UT:" } else { "" }, text),
+          &show(&im),
+          &short(&format!("{:?}", trees[0])),
+        );
+      }
+    }
+    // the same texts without the sign parse (the family is about the sign alone)
+    for (text, ut, _, _) in cases.iter().filter(|c| !c.0.contains("- ")).take(400) {
+      let plain = text.replace('-', "");
+      rep.case(&format!("signed-endpoint|unsigned|{}|{}", ut, plain), true);
+      rep.hit("signed-endpoint:the same text without the sign");
+      let im = if *ut { run_impl_ut(&plain) } else { run_impl(&plain) };
+      if im.is_err() {
+        rep.disagree(Kind::ImplVsSpec, "signed-endpoint", "parser rejects an interval or a unary test with unsigned numbers", &plain, &show(&im), "a tree");
+      }
+    }
+  }
+
+  // ---------------------------------------------------------------- intervals with unbalanced brackets around `between … and`
+  // FEEL intervals may be written with reversed brackets (`[1..5[`, `]1..5]`, `(1..5[` …), so the brackets of a program
+  // are not balanced; an interval in each of the nine spellings as the lower bound of `between` (directly, in
+  // parentheses, as an argument, a list item, inside a filter) and before / after a between clause: written-out trees.
+  {
+    let (a, b, c, d, m) = (name_ast(0), name_ast(1), name_ast(2), name_ast(3), name_ast(5));
+    let num = |t: &str| AstNode::Numeric(t.to_string(), "".to_string());
+    let bx = |n: &AstNode| Box::new(n.clone());
+    let brackets: [(&str, &str, bool, bool); 9] =
+      [("[", "]", true, true), ("(", ")", false, false), ("]", "[", false, false), ("(", "]", false, true), ("[", ")", true, false), ("]", "]", false, true), ("[", "[", true, false), ("]", ")", false, false), ("(", "[", false, false)];
+    for (ob, cb, sc, ec) in brackets {
+      let iv = format!("{} 1 .. 5 {}", ob, cb);
+      let range = AstNode::Range(Box::new(AstNode::IntervalStart(bx(&num("1")), sc)), Box::new(AstNode::IntervalEnd(bx(&num("5")), ec)));
+      let btw = |mid: AstNode| AstNode::Between(bx(&a), Box::new(mid), bx(&b));
+      let cases: Vec<(String, AstNode)> = vec![
+        (format!("a between {} and b", iv), btw(range.clone())),
+        (format!("( a ) between ( {} ) and ( b )", iv), btw(range.clone())),
+        (format!("a between c ( {} ) and b", iv), btw(AstNode::FunctionInvocation(bx(&c), Box::new(AstNode::PositionalParameters(vec![range.clone()]))))),
+        (format!("a between [ {} ] and b", iv), btw(AstNode::List(vec![range.clone()]))),
+        (format!("a between d [ m in {} ] and b", iv), btw(AstNode::Filter(bx(&d), Box::new(AstNode::In(bx(&m), bx(&range)))))),
+        (format!("[ {} , a between c and b ]", iv), AstNode::List(vec![range.clone(), AstNode::Between(bx(&a), bx(&c), bx(&b))])),
+        (format!("[ a between c and b , {} ]", iv), AstNode::List(vec![AstNode::Between(bx(&a), bx(&c), bx(&b)), range.clone()])),
+        (format!("a between c and b and d in {}", iv), AstNode::And(Box::new(AstNode::Between(bx(&a), bx(&c), bx(&b))), Box::new(AstNode::In(bx(&d), bx(&range))))),
+        (format!("d in {} and a between c and b", iv), AstNode::And(Box::new(AstNode::In(bx(&d), bx(&range))), Box::new(AstNode::Between(bx(&a), bx(&c), bx(&b))))),
+      ];
+      for (text, expected) in cases {
+        rep.case(&text, true);
+        rep.hit("between-interval");
+        let im = run_impl(&text);
+        if im.as_ref().ok() != Some(&expected) {
+          rep.disagree(Kind::ImplVsSpec, "between-interval", "an interval written with unbalanced brackets next to a between clause changes the tree", &text, &show(&im), &short(&format!("{:?}", expected)));
+        }
+      }
     }
   }
 
